@@ -144,3 +144,41 @@ package mem
 //@                        isType(t.store.records[path], fileRecord) && t.store.records[path].(fileRecord).data == old(srcData(src)))
 //@   ensures "inv" txnInv(t)
 //@   nopanic
+
+// ---- the in-memory record ----
+
+//@ func (f fileRecord) Data() (b blob.Blob, err error)
+//@   props C02 C14
+//@   ensures "data" b == f.data && err == nil
+//@   pure
+//@   nopanic
+
+//@ func (f fileRecord) Size() (n int64)
+//@   props C02
+//@   requires f.data != nil && blob.blobOK(f.data)
+//@   ensures "live" n == blob.blobLen(f.data)
+//@   pure
+//@   nopanic
+
+//@ func (f fileRecord) Mode() (m hackpadfs.FileMode)
+//@   inline
+//@ func (f fileRecord) ModTime() (t time.Time)
+//@   inline
+//@ func (f fileRecord) Sys() (v interface{})
+//@   inline
+
+//@ spec childPrefix(d string) := ite(d == ".", "", d + "/")
+//@ spec isChildKey(k string, d string) := hasPrefix(k, childPrefix(d)) && !contains(trimPrefix(k, childPrefix(d)), "/") && !(d == "." && k == ".") && k != d
+//@ spec childName(k string, d string) := trimPrefix(k, childPrefix(d))
+
+// Attempted and not discharged within the solver budget (quantifier alternation over strings under the
+// Range rule): "the result is exactly the set of child names, each once". The draft clauses are kept in
+// /verif/DESIGN.md; only shape, kind and no-panic obligations are claimed for this function.
+//@ func (f fileRecord) ReadDirNames() (names []string, err error)
+//@   props C16 C03
+//@   requires f.store != nil
+//@   range 1 over f.store.records visited V key k
+//@   range 1 invariant "shape" ref(names) == 0 || fresh(names)
+//@   ensures "notdir" implies(f.mode&hackpadfs.ModeDir == 0, names == nil && err == hackpadfs.ErrNotDir)
+//@   ensures "dir" implies(f.mode&hackpadfs.ModeDir != 0, err == nil)
+//@   nopanic
